@@ -1,5 +1,463 @@
-//! C22 — stub (being built).
+//! C22 — look-ahead and selection views list every sub-field that will be resolved.
+//!
+//! Monitor: with `Env.record_views` every harness resolver of a field that has
+//! a selection set logs what `ctx.field().selection_set()` (walked recursively)
+//! and `ctx.look_ahead().field(..)` (asked for every field name of the schema
+//! at every level) report below it. Offline the views are joined, by response
+//! path, with the resolver Start events of the same execution and with the
+//! document the harness generated:
+//!   * every resolver that ran below a field must be listed in the views that
+//!     field's resolver was given — by name and by its resolved arguments;
+//!   * a view must not list more occurrences of a sub-field than the document
+//!     has left after @skip/@include (so a pruned selection must be absent),
+//!     let alone more than the document has at all.
+
+use std::collections::{BTreeMap, HashMap};
+use std::path::Path;
+use std::sync::Arc;
+
+use serde_json::{Value as J, json};
+use vh_core::{Rng, Run, catch, rng};
+use vh_model::coerce::Vars;
+use vh_model::doc::*;
+use vh_model::exec::{RefResult, eval_dirs};
+use vh_model::gen_doc::gen_doc;
+use vh_model::gen_ts::gen_type_system;
+use vh_model::{TypeSystem, Val};
+use vh_schema::compare::json_eq;
+use vh_schema::{Ek, Env, dynb, s1};
+
+use crate::common::*;
+
+// ---------------------------------------------------------------- what the document says
+
+/// One occurrence of a field below a given field node, reached through any
+/// inline fragment / fragment spread (type conditions ignored, as the views do).
+struct Occ<'a> {
+    keys: Vec<String>,
+    names: Vec<String>,
+    node: &'a FieldSel,
+    /// false when the occurrence itself, an enclosing fragment or an enclosing field is removed by @skip/@include
+    kept: bool,
+}
+
+fn expand<'a>(doc: &'a Doc, vars: &Vars, sel: &'a [Sel], keys: &[String], names: &[String], kept: bool, depth: usize, out: &mut Vec<Occ<'a>>) {
+    if depth > 40 {
+        return;
+    }
+    for s in sel {
+        match s {
+            Sel::Field(f) => {
+                let k = kept && eval_dirs(&f.dirs, vars);
+                let mut ks = keys.to_vec();
+                ks.push(f.key().to_string());
+                let mut ns = names.to_vec();
+                ns.push(f.name.clone());
+                out.push(Occ { keys: ks.clone(), names: ns.clone(), node: f, kept: k });
+                expand(doc, vars, &f.sel, &ks, &ns, k, depth + 1, out);
+            }
+            Sel::Inline { dirs, sel, .. } => expand(doc, vars, sel, keys, names, kept && eval_dirs(dirs, vars), depth + 1, out),
+            Sel::Spread { name, dirs, .. } => {
+                if let Some(fr) = doc.frag(name) {
+                    expand(doc, vars, &fr.sel, keys, names, kept && eval_dirs(dirs, vars), depth + 1, out);
+                }
+            }
+        }
+    }
+}
+
+/// A written argument value with variables substituted by what the request supplied, else by the
+/// variable's default; `None` = the variable is neither supplied nor defaulted (the argument is omitted).
+fn resolve_written(v: &Val, raw_vars: &J, defs: &[VarDef]) -> Option<Val> {
+    match v {
+        Val::Var(x) => match raw_vars.get(x) {
+            Some(j) => Some(Val::from_json(j)),
+            None => defs.iter().find(|d| &d.name == x).and_then(|d| d.default.clone()),
+        },
+        Val::List(xs) => Some(Val::List(xs.iter().map(|x| resolve_written(x, raw_vars, defs).unwrap_or(Val::Null)).collect())),
+        Val::Obj(m) => Some(Val::Obj(m.iter().filter_map(|(k, x)| resolve_written(x, raw_vars, defs).map(|x| (k.clone(), x))).collect())),
+        other => Some(other.clone()),
+    }
+}
+
+/// `seen` carries everything `want` says (objects may carry more keys: omitted / defaulted input fields are not judged).
+fn covers(seen: &J, want: &J) -> bool {
+    match (seen, want) {
+        (J::Object(s), J::Object(w)) => w.iter().all(|(k, wv)| s.get(k).map(|sv| covers(sv, wv)).unwrap_or(false)),
+        (J::Array(s), J::Array(w)) => s.len() == w.len() && s.iter().zip(w).all(|(a, b)| covers(a, b)),
+        _ => json_eq(seen, want),
+    }
+}
+
+/// Does the argument map a view reported agree with the arguments written on `node`?
+fn args_agree(seen: &J, node: &FieldSel, raw_vars: &J, defs: &[VarDef]) -> Result<(usize, usize), String> {
+    let Some(seen) = seen.as_object() else { return Err(format!("argument view is not a map: {seen}")) };
+    if let Some(e) = seen.get("<error>") {
+        return Err(format!("arguments() failed: {e}"));
+    }
+    let mut compared = 0;
+    let mut with_vars = 0;
+    for (k, v) in &node.args {
+        match resolve_written(v, raw_vars, defs) {
+            // omitted: absent or null are both readings of "no value"
+            None => {
+                if let Some(s) = seen.get(k) {
+                    if !s.is_null() {
+                        return Err(format!("argument {k} is written as an omitted variable but the view reports {s}"));
+                    }
+                }
+            }
+            Some(want) => {
+                let want = want.json();
+                let Some(s) = seen.get(k) else { return Err(format!("argument {k} (resolved {want}) is missing from the view")) };
+                if !covers(s, &want) {
+                    return Err(format!("argument {k}: the view reports {s}, written value resolves to {want}"));
+                }
+                compared += 1;
+                if v.contains_var() {
+                    with_vars += 1;
+                }
+            }
+        }
+    }
+    Ok((compared, with_vars))
+}
+
+// ---------------------------------------------------------------- the join
+
+struct ViewEv {
+    lookahead: bool,
+    /// (address below the field, name for selection views / response key for look-ahead views, args)
+    entries: Vec<(Vec<String>, Option<String>, J)>,
+}
+
+fn parse_view(extra: &str) -> Option<ViewEv> {
+    let v: J = serde_json::from_str(extra).ok()?;
+    let lookahead = match v.get("view")?.as_str()? {
+        "selection" => false,
+        "lookahead" => true,
+        _ => return None,
+    };
+    let mut entries = vec![];
+    for e in v.get("entries")?.as_array()? {
+        let addr: Vec<String> = e.get(0)?.as_array()?.iter().filter_map(|s| s.as_str().map(|s| s.to_string())).collect();
+        let what = e.get(1)?.as_str().map(|s| s.to_string());
+        entries.push((addr, what, e.get(2).cloned().unwrap_or(J::Null)));
+    }
+    Some(ViewEv { lookahead, entries })
+}
+
+fn rel_keys(parent: &str, child: &str) -> Option<Vec<String>> {
+    let rest = child.strip_prefix(parent)?.strip_prefix('.')?;
+    Some(rest.split('.').filter(|s| s.parse::<usize>().is_err()).map(|s| s.to_string()).collect())
+}
+
+pub struct Stats {
+    pub problems: Vec<String>,
+}
+
+/// Judge one execution. `events` is the resolver log, `reference` R1's run of the same case.
+fn judge(run: &Run, case: &Case, reference: &RefResult, events: &[vh_schema::Event]) -> Stats {
+    let mut problems = vec![];
+    let Some(op) = case.gd.doc.op(case.gd.op_name.as_deref()) else { return Stats { problems } };
+    let mut nodes: HashMap<usize, &FieldSel> = HashMap::new();
+    walk_sels(&case.gd.doc, &mut |s| {
+        if let Sel::Field(f) = s {
+            nodes.insert(f.id, f);
+        }
+    });
+    let calls: HashMap<&str, &vh_model::exec::Call> = reference.calls.iter().map(|c| (c.path.as_str(), c)).collect();
+    let starts: Vec<&vh_schema::Event> = events.iter().filter(|e| e.kind == Ek::Start).collect();
+    let start_field: HashMap<&str, &str> = starts.iter().map(|e| (e.path.as_str(), e.field.as_str())).collect();
+    // views by path
+    let mut views: BTreeMap<&str, Vec<ViewEv>> = BTreeMap::new();
+    for e in events.iter().filter(|e| e.kind == Ek::View) {
+        if let Some(v) = parse_view(&e.extra) {
+            views.entry(e.path.as_str()).or_default().push(v);
+        }
+    }
+    for (p, vs) in &views {
+        let Some(call) = calls.get(p) else {
+            run.count("views_without_reference_call", 1);
+            continue;
+        };
+        let field_nodes: Vec<&FieldSel> = call.field_ids.iter().filter_map(|id| nodes.get(id).copied()).collect();
+        if field_nodes.is_empty() {
+            continue;
+        }
+        let mut occ: Vec<Occ> = vec![];
+        for n in &field_nodes {
+            expand(&case.gd.doc, &reference.vars, &n.sel, &[], &[], true, 0, &mut occ);
+        }
+        let pruned = occ.iter().filter(|o| !o.kept).count();
+        // ---- 2. nothing pruned, nothing invented
+        for v in vs {
+            run.count(if v.lookahead { "lookahead_views_joined" } else { "views_joined" }, 1);
+            run.count("view_entries_checked", v.entries.len() as u64);
+            let mut counts: BTreeMap<(Vec<String>, Option<String>), usize> = BTreeMap::new();
+            for (addr, what, _) in &v.entries {
+                *counts.entry((addr.clone(), what.clone())).or_insert(0) += 1;
+            }
+            for ((addr, what), n) in counts {
+                let Some(what) = what else {
+                    problems.push(format!("look-ahead at {p}: field({}) exists() but has no selection_fields()", addr.join(").field(")));
+                    continue;
+                };
+                let same = |o: &&Occ| if v.lookahead { o.names == addr && o.node.key() == what } else { o.keys == addr && o.node.name == what };
+                let all = occ.iter().filter(same).count();
+                let kept = occ.iter().filter(same).filter(|o| o.kept).count();
+                let kind = if v.lookahead { "look-ahead" } else { "selection" };
+                if n > all {
+                    problems.push(format!(
+                        "{kind} view of {p} lists {n} × /{}={what} but the document has {all} such selection(s) below that field",
+                        addr.join("/")
+                    ));
+                } else if n > kept {
+                    problems.push(format!(
+                        "{kind} view of {p} lists {n} × /{}={what} but only {kept} of the document's {all} are left after @skip/@include",
+                        addr.join("/")
+                    ));
+                }
+            }
+            if pruned > 0 {
+                run.count("pruned_selections_checked", pruned as u64);
+            }
+        }
+        // ---- 1. every resolver that ran below p is listed, with its arguments
+        for s in &starts {
+            let Some(keys) = rel_keys(p, &s.path) else { continue };
+            if keys.is_empty() {
+                continue;
+            }
+            let Some(ccall) = calls.get(s.path.as_str()) else {
+                run.count("child_events_without_reference_call", 1);
+                continue;
+            };
+            let Some(cnode) = ccall.field_ids.first().and_then(|id| nodes.get(id).copied()) else { continue };
+            // names of the fields along the way
+            let mut names = vec![];
+            let mut ok = true;
+            let rest = s.path[p.len() + 1..].split('.').collect::<Vec<_>>();
+            let mut cur = p.to_string();
+            for seg in rest {
+                cur = format!("{cur}.{seg}");
+                if seg.parse::<usize>().is_ok() {
+                    continue;
+                }
+                match start_field.get(cur.as_str()) {
+                    Some(f) => names.push(f.to_string()),
+                    None => ok = false,
+                }
+            }
+            for lookahead in [false, true] {
+                let evs: Vec<&ViewEv> = vs.iter().filter(|v| v.lookahead == lookahead).collect();
+                if evs.is_empty() || (lookahead && !ok) {
+                    continue;
+                }
+                let kind = if lookahead { "look-ahead" } else { "selection" };
+                let cands: Vec<&(Vec<String>, Option<String>, J)> = evs
+                    .iter()
+                    .flat_map(|v| v.entries.iter())
+                    .filter(|(addr, what, _)| {
+                        if lookahead {
+                            *addr == names && what.as_deref() == Some(keys.last().unwrap().as_str())
+                        } else {
+                            *addr == keys && what.as_deref() == Some(s.field.as_str())
+                        }
+                    })
+                    .collect();
+                if cands.is_empty() {
+                    problems.push(format!(
+                        "resolver {}.{} ran at {} but the {kind} view of {p} does not list /{}",
+                        s.parent_ty,
+                        s.field,
+                        s.path,
+                        if lookahead { names.join("/") } else { keys.join("/") }
+                    ));
+                    continue;
+                }
+                let mut verdicts = vec![];
+                for c in &cands {
+                    verdicts.push(args_agree(&c.2, cnode, &case.gd.vars, &op.vars));
+                }
+                match verdicts.iter().find_map(|v| v.as_ref().ok()) {
+                    Some((compared, with_vars)) => {
+                        run.count(if lookahead { "child_events_matched_lookahead" } else { "child_events_matched" }, 1);
+                        run.count("args_compared", *compared as u64);
+                        run.count("args_with_variables_compared", *with_vars as u64);
+                    }
+                    None => problems.push(format!(
+                        "resolver {}.{} ran at {} but no entry of the {kind} view of {p} carries its arguments: {}",
+                        s.parent_ty,
+                        s.field,
+                        s.path,
+                        verdicts.iter().filter_map(|v| v.as_ref().err().cloned()).collect::<Vec<_>>().join(" / ")
+                    )),
+                }
+            }
+        }
+    }
+    Stats { problems }
+}
+
+// ---------------------------------------------------------------- cases
+
+#[derive(Clone)]
+struct Spec {
+    flavour: &'static str,
+    case_seed: u64,
+}
+
+fn build_case(run: &Run, spec: &Spec, s1ts: &Arc<TypeSystem>, s1schema: &AnySchema) -> Option<(Case, AnySchema)> {
+    let mut r = Rng::new(spec.case_seed);
+    if spec.flavour == "static" {
+        let mut o = doc_opts(run);
+        o.kind = if r.chance(1, 6) { OpKind::Mutation } else { OpKind::Query };
+        let gd = gen_doc(s1ts, &mut r, &o);
+        let world = world_for("static", r.next_u64());
+        Some((Case::new(s1ts.clone(), gd, world, r.bool()), s1schema.clone()))
+    } else {
+        let ts = Arc::new(gen_type_system(&mut r, &ts_opts(run)));
+        let schema = match catch(|| dynb::build(&ts)) {
+            Ok(Ok(s)) => s,
+            _ => {
+                run.count("schema_build_failed", 1);
+                return None;
+            }
+        };
+        let mut o = doc_opts(run);
+        o.kind = if ts.mutation.is_some() && r.chance(1, 5) { OpKind::Mutation } else { OpKind::Query };
+        let gd = gen_doc(&ts, &mut r, &o);
+        let world = world_for("dynamic", r.next_u64());
+        Some((Case::new(ts, gd, world, r.bool()), AnySchema::Dyn(schema)))
+    }
+}
+
+fn one(run: &Run, spec: &Spec, case: &Case, schema: &AnySchema) {
+    let reference = case.reference();
+    let mut env = Env::new(case.ts.clone(), case.world.clone());
+    env.record_views = true;
+    let resp = match catch(|| schema.execute(case.request(&env))) {
+        Ok(r) => r,
+        Err(p) => {
+            run.violation(
+                &format!("C22-panic:{:x}", case.hash()),
+                &format!("executor panicked while resolvers read their views: {p}"),
+                replay_json(spec, case),
+            );
+            return;
+        }
+    };
+    run.eval();
+    let events = env.log.snapshot();
+    run.count("resolver_events", events.iter().filter(|e| e.kind == Ek::Start).count() as u64);
+    if reference.request_error.is_some() {
+        run.count("requests_rejected_before_execution", 1);
+        return;
+    }
+    let stats = judge(run, case, &reference, &events);
+    let has_views = events.iter().any(|e| e.kind == Ek::View);
+    for f in &case.gd.features {
+        run.seen("features", f);
+    }
+    run.seen("flavours", spec.flavour);
+    let f = &case.gd.features;
+    if has_views && (f.contains("named_fragment") || f.contains("inline_fragment")) && (f.contains("directive") || f.contains("variable") || f.contains("alias")) {
+        run.nontrivial(case.hash());
+    }
+    if has_views {
+        run.sample(json!({
+            "flavour": spec.flavour, "document": case.printed.text, "variables": case.gd.vars,
+            "views": events.iter().filter(|e| e.kind == Ek::View && e.extra.starts_with('{')).take(2)
+                .map(|e| json!({"path": e.path, "field": format!("{}.{}", e.parent_ty, e.field), "recorded": serde_json::from_str::<J>(&e.extra).unwrap_or(J::Null)})).collect::<Vec<_>>(),
+            "response": serde_json::to_value(&resp).unwrap_or_default(),
+        }));
+    }
+    if !stats.problems.is_empty() {
+        let mut rj = replay_json(spec, case);
+        rj["problems"] = json!(stats.problems);
+        run.violation(
+            &format!("C22:{:x}", case.hash()),
+            &format!("{} | doc: {} | variables: {}", stats.problems.iter().take(4).cloned().collect::<Vec<_>>().join("; "), case.printed.text, case.gd.vars),
+            rj,
+        );
+    }
+}
+
+fn replay_json(spec: &Spec, case: &Case) -> J {
+    let mut rj = case.replay_json(spec.flavour);
+    rj["case_seed"] = json!(spec.case_seed.to_string());
+    rj["note"] = json!("the case (schema, document, variables, world) is regenerated from case_seed by the deterministic generators; the text is recorded for the reader");
+    rj
+}
+
+fn replay(run: &Run, path: &Path) {
+    let Some(v) = std::fs::read_to_string(path).ok().and_then(|t| serde_json::from_str::<J>(&t).ok()) else {
+        run.inconclusive(&format!("cannot read replay file {}", path.display()));
+        return;
+    };
+    let c = &v["case"];
+    let (Some(seed), Some(flavour)) = (c["case_seed"].as_str().and_then(|s| s.parse::<u64>().ok()), c["flavour"].as_str()) else {
+        run.inconclusive("replay file has no case_seed / flavour");
+        return;
+    };
+    let spec = Spec { flavour: if flavour == "static" { "static" } else { "dynamic" }, case_seed: seed };
+    let ts = s1::model();
+    let schema = AnySchema::S1(s1::schema());
+    let Some((case, schema)) = build_case(run, &spec, &ts, &schema) else {
+        run.inconclusive("schema of the replayed case does not build");
+        return;
+    };
+    if Some(case.printed.text.as_str()) != c["document"].as_str() {
+        run.inconclusive("regenerated document differs from the recorded one (generator changed or features differ)");
+        return;
+    }
+    println!("REPLAY {} document {}", spec.flavour, case.printed.text);
+    one(run, &spec, &case, &schema);
+}
+
 pub fn main() {
-    println!("INCONCLUSIVE property=C22 reason=check not built yet");
-    std::process::exit(2);
+    let mut run = Run::from_args(
+        "exploration",
+        "valid-by-construction operations (named / inline / nested fragments on object, interface and union conditions, \
+         @skip/@include from literals, variables and defaulted variables, aliases, repeated keys, variables in arguments incl. \
+         nested in lists and input objects, omitted and null variables) over the derive-built schema S1 and over random \
+         dynamic schemas; every resolver of a field with a selection set records ctx.field().selection_set() recursively and \
+         ctx.look_ahead().field(n) for every field name at every level; views are joined by response path with the resolver \
+         Start events of the same run. Non-trivial = a view was recorded and the document combines a fragment with a directive, \
+         a variable or an alias; distinct by hash of (schema, document, variables, world)",
+    );
+    run.assume("documents are valid by construction; the reference executor R1 names, per response path, the field nodes that were merged there (their written arguments and directives are read from the harness AST)");
+    run.assume("'resolved arguments' = the arguments as written with variables replaced by the supplied value, else by the variable's default; an argument whose variable is neither supplied nor defaulted may be absent or null; argument defaults of the schema and defaulted / omitted input-object fields are not demanded of a view (extra keys are tolerated); enum literals and enum values supplied as JSON strings are not told apart");
+    run.assume("where several field nodes share a response key the views of all resolver runs at that path are taken together (the library resolves such nodes one by one)");
+    run.assume("a view may list a selection that is never resolved when its type condition does not match, its parent is null / failed or a list is empty; only pruned (@skip/@include) and non-existent selections are rejected, by counting occurrences per (address, name)");
+    if let Some(p) = run.replay.clone() {
+        replay(&run, &p);
+        run.finish_code_exit();
+    }
+    let cases = run.scale(30_000, 1_200_000);
+    run.set_floors(run.scale(2_000, 100_000), run.scale(300, 20_000));
+    for c in ["resolver_events", "views_joined", "lookahead_views_joined", "child_events_matched", "child_events_matched_lookahead", "pruned_selections_checked", "args_compared", "args_with_variables_compared"] {
+        run.require_counter(c);
+    }
+    let shards = n_shards(&run);
+    let ts = s1::model();
+    let schema = AnySchema::S1(s1::schema());
+    let run = &run;
+    std::thread::scope(|sc| {
+        for shard in 0..shards {
+            let ts = ts.clone();
+            let schema = schema.clone();
+            sc.spawn(move || {
+                let mut i = shard;
+                while i < cases {
+                    let spec = Spec { flavour: if i % 3 == 2 { "dynamic" } else { "static" }, case_seed: rng::mix(&[run.seed, 22, i]) };
+                    i += shards;
+                    let Some((case, sch)) = build_case(run, &spec, &ts, &schema) else { continue };
+                    one(run, &spec, &case, &sch);
+                }
+            });
+        }
+    });
+    run.finish_code_exit();
 }
